@@ -3,6 +3,7 @@ import DispatchVerif.Core.SuspendP
 import DispatchVerif.Core.ActP
 import DispatchVerif.Core.LaneRResp
 import DispatchVerif.Core.LaneFFifoMain
+import DispatchVerif.Core.FinishW
 /-! L-trace prototype with the Lean model itself: every recorded dq_state transition of the real
     library (hooked build, real multi-threaded workloads) must be the dq-effect of the LaneW `step`
     function at one of the pcs that the C function name corresponds to. -/
@@ -147,6 +148,7 @@ structure Stats where
   skippedSusp : Nat := 0
   unmodelled : Nat := 0
   suspOk : Nat := 0
+  finishOk : Nat := 0
   gapWakeup : Nat := 0     -- wakeup that sets ENQUEUED without DIRTY (override wakeup): not a LaneW transition
   bad : List String := []
 
@@ -172,7 +174,12 @@ def main (args : List String) : IO UInt32 := do
         if opn = 4 then continue            -- failed compare-exchange: no transition
         st := { st with total := st.total + 1 }
         if unmodelledFuncs.contains func then
-          if func == "_dispatch_queue_invoke_finish" then st := { st with unmodelled := st.unmodelled + 1 }
+          if func == "_dispatch_queue_invoke_finish" then
+            -- the word-level model of the rmw loop body, for the owned amount the fields lost
+            if opn = 3 then
+              if FinishW.explained (hexVal old) (hexVal new) then st := { st with finishOk := st.finishOk + 1 }
+              else st := { st with bad := (s!"{path}: {line} (not FinishW.invokeFinishW of the old word for any owned amount)") :: st.bad }
+            else st := { st with unmodelled := st.unmodelled + 1 }
           else
             let qn := q.toNat!
             let side := (sides.lookup qn).getD 0
@@ -200,7 +207,7 @@ def main (args : List String) : IO UInt32 := do
           else st := { st with bad := (s!"{path}: {line}") :: st.bad }
         | _, _ => st := { st with skippedSusp := st.skippedSusp + 1 }
       | _ => pure ()
-  IO.println s!"transitions {st.total}  explained-by-LaneW.step {st.ok}  (serial, also by LaneR.step and LaneF.step: {st.serialOk})  suspended/inactive {st.skippedSusp}  suspend/resume explained-by-SuspendP.step {st.suspOk}  other {st.unmodelled}  override-wakeup (model gap) {st.gapWakeup}  UNEXPLAINED {st.bad.length}"
+  IO.println s!"transitions {st.total}  explained-by-LaneW.step {st.ok}  (serial, also by LaneR.step and LaneF.step: {st.serialOk})  suspended/inactive {st.skippedSusp}  suspend/resume explained-by-SuspendP.step {st.suspOk}  invoke_finish explained-by-FinishW {st.finishOk}  other {st.unmodelled}  override-wakeup (model gap) {st.gapWakeup}  UNEXPLAINED {st.bad.length}"
   for b in st.bad.reverse.take 12 do IO.println b
   return if st.bad.isEmpty then 0 else 1
 
